@@ -18,6 +18,7 @@ import (
 type c12Row struct {
 	id    int
 	owner int // has-many / has-one: foreign key (0 = NULL)
+	typ   int // polymorphic: owner type (0 = NULL, 1 = "kids", 2 = "dogs")
 }
 
 type c12Model struct {
@@ -267,6 +268,176 @@ func H_C12_HasMany(shape int) {
 		// the in-memory relation field of the record that received every operation
 		var mem []int
 		for _, p := range o.Pets {
+			mem = append(mem, int(p.ID))
+		}
+		c12SameSet(mem, want, "C12.in-memory:"+label)
+		verifrt.Observe("links", len(want))
+	}
+	verifrt.Observe("log", s.Kinds())
+}
+
+// ---- polymorphic has many (Kid.Toys through toys.ownerid / toys.ownertype)
+
+func N_C12_Polymorphic(tier int) int { return c12N(tier) }
+
+func H_C12_Polymorphic(shape int) {
+	sh := c12Shapes[shape]
+	nops, unscoped := len(sh.ops), sh.unscoped
+	mdb := NewMemDB()
+	owners := mdb.AddTable("kids", []string{"id", "name"}, []string{"id"})
+	owners.AddRow(1, "o")
+	owners.AddRow(2, "p")
+	pets := mdb.AddTable("toys", []string{"id", "name", "ownerid", "ownertype"}, []string{"id"})
+	model := &c12Model{}
+	o := Kid{ID: 1, Name: "o"}
+	// two existing toys (keys 2 and 3), each owned by kid 1, kid 2, by a record of
+	// another type with the same key (1, "dogs"), or by nobody
+	for k, x := range []int{2, 3} {
+		l := []int{1, 3}[k]
+		if sh.fullInit {
+			l = verifrt.Concretize(verifrt.Intn("linked"+string([]byte{byte('1' + k)}), 0, 3), 0, 3)
+		}
+		switch l {
+		case 0:
+			pets.AddRow(x, "e", nil, nil)
+			model.rows = append(model.rows, c12Row{id: x})
+		case 1, 2:
+			pets.AddRow(x, "e", l, "kids")
+			model.rows = append(model.rows, c12Row{id: x, owner: l, typ: 1})
+		case 3:
+			pets.AddRow(x, "e", 1, "dogs")
+			model.rows = append(model.rows, c12Row{id: x, owner: 1, typ: 2})
+		}
+		if l == 1 {
+			o.Toys = append(o.Toys, Toy{ID: uint(x), OwnerID: 1, OwnerType: "kids", Name: "e"})
+		}
+	}
+	mdb.Snapshot()
+	s := NewStore()
+	s.OnExecE = mdb.Exec
+	s.OnQuery = mdb.Query
+	db := openReal(stubDialector{nullDefault: true}, s, nil)
+	var kinds []int
+	// the statement trace is replayed on SQLite after native runs (also when an assertion fails)
+	defer func() { mdb.Dump(c12Label("polymorphic", kinds, unscoped)) }()
+	for k := 0; k < nops; k++ {
+		tag := "op" + string([]byte{byte('0' + k)})
+		kind := verifrt.Concretize(verifrt.Intn(tag+"_kind", 0, 3), 0, 3)
+		kinds = append(kinds, kind)
+		nt := 0
+		if kind != 3 {
+			nt = 1
+			if sh.ops[k] == 'w' {
+				nt = verifrt.Concretize(verifrt.Intn(tag+"_targets", 1, 2), 1, 2)
+			}
+		}
+		vals := make([]*Toy, nt)
+		args := make([]interface{}, nt)
+		for j := range vals {
+			if kind != 2 && verifrt.Bool(tag+"_new"+string([]byte{byte('0' + j)})) {
+				vals[j] = &Toy{Name: "n"}
+			} else {
+				vals[j] = &Toy{ID: uint(verifrt.Intn(tag+"_id"+string([]byte{byte('0' + j)}), 2, 4)), Name: "t"}
+			}
+			args[j] = vals[j]
+		}
+		label := c12Label("polymorphic", kinds, unscoped)
+		verifrt.Tag(label)
+		a := db.Model(&o).Association("Toys")
+		if unscoped {
+			a = a.Unscoped()
+		}
+		var err error
+		switch kind {
+		case 0:
+			err = a.Append(args...)
+		case 1:
+			err = a.Replace(args...)
+		case 2:
+			err = a.Delete(args...)
+		case 3:
+			err = a.Clear()
+		}
+		verifrt.Assert(err == nil, "C12.error:"+label)
+		// reference model
+		var ids []int
+		for _, v := range vals {
+			verifrt.Assert(v.ID != 0, "C12.target-without-key:"+label)
+			ids = append(ids, int(v.ID))
+		}
+		unlink := func(i int) {
+			if unscoped {
+				model.rows = append(model.rows[:i:i], model.rows[i+1:]...)
+			} else {
+				model.rows[i].owner = 0
+			}
+		}
+		switch kind {
+		case 0, 1:
+			if kind == 1 {
+				for i := len(model.rows) - 1; i >= 0; i-- {
+					if model.rows[i].owner == 1 && model.rows[i].typ == 1 && !containsInt(ids, model.rows[i].id) {
+						unlink(i)
+					}
+				}
+			}
+			for _, id := range ids {
+				if i := model.find(id); i >= 0 {
+					model.rows[i].owner, model.rows[i].typ = 1, 1
+				} else {
+					model.rows = append(model.rows, c12Row{id: id, owner: 1, typ: 1})
+				}
+			}
+		case 2:
+			for _, id := range ids {
+				if i := model.find(id); i >= 0 && model.rows[i].owner == 1 && model.rows[i].typ == 1 {
+					unlink(i)
+				}
+			}
+		case 3:
+			for i := len(model.rows) - 1; i >= 0; i-- {
+				if model.rows[i].owner == 1 && model.rows[i].typ == 1 {
+					unlink(i)
+				}
+			}
+		}
+		verifrt.Reach("op-applied")
+		// stored links and surviving records
+		c12SameRows(pets, "id", "ownerid", model, label)
+		// the type column: "kids" on every row that is or was linked to a kid, untouched elsewhere
+		ti, ii := pets.colIdx("ownertype"), pets.colIdx("id")
+		for _, r := range pets.rows {
+			for _, e := range model.rows {
+				if r[ii].i == e.id {
+					want := []string{"", "kids", "dogs"}[e.typ]
+					if e.typ == 0 {
+						verifrt.Assert(r[ti].null, "C12.stored-links:"+label)
+					} else {
+						verifrt.Assert(!r[ti].null && r[ti].i == internStr(want), "C12.stored-links:"+label)
+					}
+				}
+			}
+		}
+		var want []int
+		for _, e := range model.rows {
+			if e.owner == 1 && e.typ == 1 {
+				want = append(want, e.id)
+			}
+		}
+		// Count and Find report exactly those links
+		n := db.Model(&Kid{ID: 1}).Association("Toys").Count()
+		verifrt.Assert(n == int64(len(want)), "C12.count:"+label)
+		var found []Toy
+		verifrt.Assert(db.Model(&Kid{ID: 1}).Association("Toys").Find(&found) == nil, "C12.error:"+label)
+		var got []int
+		for _, p := range found {
+			got = append(got, int(p.ID))
+		}
+		verifrt.Assert(len(got) == len(want), "C12.find:"+label)
+		c12SameSet(got, want, "C12.find:"+label)
+		// the in-memory relation field of the record that received every operation
+		var mem []int
+		for _, p := range o.Toys {
 			mem = append(mem, int(p.ID))
 		}
 		c12SameSet(mem, want, "C12.in-memory:"+label)
